@@ -93,6 +93,18 @@ func init() {
 				e.R.Fail(ev.Fail{Class: "C12/schedule/text-conv-outcome", Msg: fmt.Sprintf("schedule %v: %s, default schedule %s", c.Schedule, r.Outcome, r.Want), Kind: "schedule-text-conv", Case: c})
 			}
 		},
+		"schedule-command": func(e *Env, raw json.RawMessage) {
+			bin, _, err := c12BuildSchedMain(e)
+			if err != nil {
+				panic(err)
+			}
+			c := decode[c12SchedCmdCase](raw)
+			r := c12SchedCmdRun(bin, c, "1", "60", c.Schedule)
+			fmt.Printf("replayed schedule: %s\n", r.raw)
+			if r.Outcome != r.Want {
+				e.R.Fail(ev.Fail{Class: "C12/schedule/command-outcome", Msg: fmt.Sprintf("crd %s under schedule %v: %s, default schedule %s", strings.Join(c.Cmd.Args, " "), c.Schedule, r.Outcome, r.Want), Kind: "schedule-command", Case: c})
+			}
+		},
 	}})
 }
 
@@ -545,6 +557,149 @@ func c12SchedMain(e *Env) {
 	e.R.AddPart(ev.Part{Name: "schedules-text-conv", Enumerated: fmt.Sprintf("the whole `text conv` path (parseText, classification, conversion, marshalling) driven from inside package main under the cooperative scheduler (%d synchronisation sites rewritten in %v): <= 5 preemptions (all interleavings in thorough) for 2-chord texts, preemption-bounded for 3, 14, 270 and 300+ chord texts with key changes (more than 256 chords, so that chunked/parallel conversion would engage); every schedule must give the bytes and verdict of the default schedule, no deadlock, no panic", res.Points, res.Rewritten), Executions: execs, States: int64(len(cases)), Transitions: execs, Exhaustive: exh, Note: strings.Join(notes, " | ")})
 }
 
+// ---- every command under the scheduler
+
+type c12SchedCmdCase struct {
+	Cmd      c12Cmd `json:"cmd"`
+	Bound    int    `json:"bound"`
+	Schedule []int  `json:"schedule,omitempty"`
+	Outcome  string `json:"outcome,omitempty"`
+	Want     string `json:"want,omitempty"`
+}
+
+type c12SchedCmdResult struct {
+	Executions int            `json:"executions"`
+	MaxPoints  int            `json:"max_points"`
+	Outcomes   map[string]int `json:"outcomes"`
+	Want       string         `json:"want"`
+	Outcome    string         `json:"outcome"`
+	Capped     bool           `json:"capped"`
+	Violations []struct {
+		Schedule []int  `json:"schedule"`
+		Outcome  string `json:"outcome"`
+		Want     string `json:"want"`
+		What     string `json:"what"`
+	} `json:"violations"`
+	raw string
+	err string
+}
+
+var c12SchedCmdSeq int64
+
+func c12SchedCmdRun(bin string, c c12SchedCmdCase, maxExec, seconds string, schedule []int) c12SchedCmdResult {
+	n := atomic.AddInt64(&c12SchedCmdSeq, 1)
+	stdin := writeTemp(cli.Scratch, fmt.Sprintf("c12-schedcmd-%d.in", n), c.Cmd.Input)
+	aj, _ := json.Marshal(c12Args(c.Cmd.Args))
+	args := []string{fmt.Sprint(c.Bound), maxExec, "cmd", stdin, string(aj)}
+	if schedule != nil {
+		sj, _ := json.Marshal(schedule)
+		args = append(args, string(sj))
+	}
+	ctx, cancel := context.WithTimeout(context.Background(), 20*time.Minute)
+	cmd := exec.CommandContext(ctx, bin, args...)
+	cmd.Env = append(os.Environ(), "VERIF_SCHED=1", "GOMAXPROCS=2", "VERIF_SCHED_SECONDS="+seconds)
+	out, err := cmd.Output()
+	timedOut := ctx.Err() == context.DeadlineExceeded
+	cancel()
+	var r c12SchedCmdResult
+	r.raw = strings.TrimSpace(string(out))
+	switch {
+	case timedOut:
+		r.err = "explorer stopped after 20 minutes"
+	case err != nil:
+		r.err = fmt.Sprintf("%v: %s", err, trunc(string(out), 300))
+	default:
+		if err := json.Unmarshal(out, &r); err != nil {
+			r.err = err.Error() + ": " + trunc(string(out), 200)
+		}
+	}
+	for _, f := range []string{stdin, stdin + ".out", stdin + ".err"} {
+		os.Remove(f)
+	}
+	return r
+}
+
+func c12SchedCommands(e *Env, cmds []c12Cmd) {
+	const part = "schedules-every-command"
+	bin, res, err := c12BuildSchedMain(e)
+	switch {
+	case err != nil:
+		e.R.AddPart(ev.Part{Name: part, Enumerated: "skipped: the scheduler variant of package main does not build: " + trunc(err.Error(), 400), Exhaustive: false})
+		return
+	case len(res.Refused) > 0:
+		e.R.AddPart(ev.Part{Name: part, Enumerated: "no verdict: constructs the scheduler does not model: " + strings.Join(res.Refused, "; "), Exhaustive: false})
+		return
+	}
+	// one representative per command name and input size class; key describe / key conv once per key is the business of the map-order part
+	seen := map[string]int{}
+	var cases []c12SchedCmdCase
+	for _, c := range cmds {
+		if seen[c.Name] >= 2 && !e.Thorough || seen[c.Name] >= 6 {
+			continue
+		}
+		seen[c.Name]++
+		b := 2
+		if len(c.Input) > 2000 {
+			b = 0
+		}
+		if e.Thorough && b > 0 {
+			b = 3
+		}
+		cases = append(cases, c12SchedCmdCase{Cmd: c, Bound: b})
+	}
+	maxExec, seconds := "20000", "8"
+	if e.Thorough {
+		maxExec, seconds = "400000", "120"
+	}
+	results := make([]c12SchedCmdResult, len(cases))
+	mc.ParFor(len(cases), func(i int) { results[i] = c12SchedCmdRun(bin, cases[i], maxExec, seconds, nil) })
+	var execs, concurrent int64
+	exh := true
+	var notes []string
+	for i, c := range cases {
+		r := results[i]
+		line := "crd " + strings.Join(c.Cmd.Args, " ")
+		if strings.HasPrefix(r.err, "explorer stopped") {
+			exh = false
+			e.R.NotExhaustive(r.err)
+			continue
+		}
+		if r.err != "" {
+			e.R.Fail(ev.Fail{Class: "C12/schedule/explorer-crash", Msg: fmt.Sprintf("exploring %s: %s", line, r.err), Kind: "schedule-command", Case: c})
+			continue
+		}
+		execs += int64(r.Executions)
+		e.R.Eval(int64(r.Executions))
+		e.R.Transition(int64(r.Executions))
+		if r.Capped {
+			exh = false
+		}
+		if r.MaxPoints > 0 {
+			concurrent++
+			e.R.NonTrivialN(int64(r.Executions))
+			notes = append(notes, fmt.Sprintf("%s: %d schedules, %d points (bound %d)", c.Cmd.Name, r.Executions, r.MaxPoints, c.Bound))
+		}
+		for _, v := range r.Violations {
+			cl := "C12/schedule/command-outcome"
+			switch {
+			case strings.Contains(v.Outcome, "DEADLOCK"):
+				cl = "C12/schedule/deadlock"
+			case strings.Contains(v.Outcome, "PANIC") || strings.Contains(v.Outcome, "panic"):
+				cl = "C12/schedule/panic"
+			case strings.Contains(v.What, "NONDETERMINISTIC"):
+				cl = "C12/schedule/harness-nondeterminism"
+			}
+			cc := c
+			cc.Schedule, cc.Outcome, cc.Want = v.Schedule, v.Outcome, v.Want
+			e.R.Fail(ev.Fail{Class: cl, Msg: fmt.Sprintf("%s under schedule %v: %s (%s); under the default schedule: %s", line, v.Schedule, v.Outcome, v.What, v.Want), Kind: "schedule-command", Case: cc})
+		}
+	}
+	if execs == 0 && exh {
+		panic("C12 harness: the command schedule exploration ran no execution")
+	}
+	e.R.AddPart(ev.Part{Name: part, Enumerated: fmt.Sprintf("%d command lines (every subcommand: text parse/conv, write, write event/parse/conv, info key/attr/chord list/describe/conv, gen; built-in and user dictionaries) executed through cobra inside package main under the cooperative scheduler, stdin and stdout redirected to files; preemption bound 2 (3 in thorough; 0 for inputs over 2 kB), each schedule must give the verdict and stdout bytes of the default schedule, no deadlock, no panic; %d of them reach a scheduling point at all (the others run no goroutine, channel or lock: one schedule)", len(cases), concurrent), Executions: execs, States: int64(len(cases)), Transitions: execs, Exhaustive: exh, Note: strings.Join(notes, " | ")})
+}
+
 func runC12(e *Env) {
 	e.R.Rule = "the two real sources of nondeterminism are put under the explorer's control: (1) map iteration order - every range over a map and maps.Keys/Values call is rewritten (overlay, from the working tree) to a site-controlled order; for every command-input every site it reaches is driven through all rotations of the sorted and of the reversed key order; (2) goroutine scheduling - the iterator behind AST classification is rewritten to a cooperative scheduler and all schedules within a preemption bound are enumerated; plus the finite product of I/O paths {stdin, -, FILE} x {stdout, -o} x {--debug off, on}. distinct = (command-input, policy | path | schedule); non-trivial = a run whose policy/path/schedule differs from the default"
 	e.R.Assume("scheduling points = the synchronisation operations (go, channel send/receive/close/range, mutex); unsynchronised accesses are the business of the supplementary free-running -race pass; the family F(n) of orders (n rotations of the sorted order and n of the reversed one) puts every key first and every pair in both relative orders")
@@ -762,6 +917,7 @@ func runC12(e *Env) {
 
 	// ---- (2b) the whole `text conv` path, goroutines in package main included
 	c12SchedMain(e)
+	c12SchedCommands(e, cmds)
 
 	// ---- (3) I/O paths
 	var ios []c12IOCase
